@@ -22,6 +22,7 @@ Section CoreInd.
   Hypothesis HPar : P KPar.
   Hypothesis HMath : forall d dl dr v b, Forall P b -> P (KMath d dl dr v b).
   Hypothesis HEnvBody : forall b, Forall P b -> P (KEnvBody b).
+  Hypothesis HEnvWrap : forall pre post b, Forall P b -> P (KEnvWrap pre post b).
   Fixpoint core_ind' (k : core) : P k :=
     let go := fix go (l : list core) : Forall P l :=
       match l return Forall P l with
@@ -38,6 +39,7 @@ Section CoreInd.
     | KPar => HPar
     | KMath d dl dr v b => HMath d dl dr v b (go b)
     | KEnvBody b => HEnvBody b (go b)
+    | KEnvWrap pre post b => HEnvWrap pre post b (go b)
     end.
 End CoreInd.
 
@@ -47,12 +49,13 @@ Section EmbedOk.
   Variable lt : l2tctx.
   Variable cx : context.
   Variable fmt_name env_name : str.
+  Variable wrap_name : str -> str -> str.
   Variable sym_name spc_chars : str -> str.
   Variable verb_pos : str -> nat * nat.
-  Notation emb := (embed fmt_name env_name sym_name spc_chars verb_pos).
-  Notation embl := (embed_items fmt_name env_name sym_name spc_chars verb_pos).
-  Notation ok := (core_ok src lt fmt_name env_name sym_name spc_chars verb_pos).
-  Notation oks := (cores_ok src lt fmt_name env_name sym_name spc_chars verb_pos).
+  Notation emb := (embed fmt_name env_name wrap_name sym_name spc_chars verb_pos).
+  Notation embl := (embed_items fmt_name env_name wrap_name sym_name spc_chars verb_pos).
+  Notation ok := (core_ok src lt fmt_name env_name wrap_name sym_name spc_chars verb_pos).
+  Notation oks := (cores_ok src lt fmt_name env_name wrap_name sym_name spc_chars verb_pos).
   Notation abs := (abstract src lt).
   Notation absl := (abstract_items src lt).
 
@@ -87,6 +90,11 @@ Section EmbedOk.
     - destruct Hok as [Htr Hb].
       change (emb (KEnvBody b)) with (NEnv 0 0 text_mode env_name (Some ([], [])) (Some (NList None None (embl b)))).
       rewrite abstract_env, Htr. cbn [abs_body]. rewrite (embl_sound b H Hb). reflexivity.
+    - destruct Hok as [Hw Hb].
+      change (emb (KEnvWrap pre post b))
+        with (NEnv 0 0 text_mode (wrap_name pre post) (Some ([], [])) (Some (NList None None (embl b)))).
+      rewrite abstract_env, (wrap_env_not_transparent lt _ pre post Hw), Hw. cbn [abs_body].
+      rewrite (embl_sound b H Hb). reflexivity.
   Qed.
 
   Theorem abstract_embed_items l : oks l -> absl (embl l) = Some l.
@@ -139,7 +147,13 @@ Theorem default_tables_core :
   /\ forallb (fun nm => is_some (symbol_repl lt0 nm) && no_args nm) SYM = true
   /\ forallb (fun ch => is_some (specials_repl lt0 ch) && is_some (get_specials_spec cx0 ch)) SPC = true
   /\ forallb (transparent_env lt0) ENV = true
-  /\ assoc (lt_specials lt0) [10; 10]%N = None /\ is_some (get_specials_spec cx0 [10; 10]%N) = true.
+  /\ assoc (lt_specials lt0) [10; 10]%N = None /\ is_some (get_specials_spec cx0 [10; 10]%N) = true
+  /\ wrap_env lt0 [99;101;110;116;101;114]%N = Some ([10%N], [10%N])                 (* center *)
+  /\ item_macro lt0 [105;116;101;109]%N = true                                        (* \item *)
+  /\ match get_macro_spec cx0 [105;116;101;109]%N with
+     | Some {| sp_args := APStd [a] |} => str_eqb (a_spec a) [91%N]
+     | _ => false
+     end = true.
 Proof. vm_compute. repeat split; reflexivity. Qed.
 
 (** the bounded statements as statements about every name of the lists *)
@@ -165,9 +179,7 @@ Qed.
 
 (** the constructs of the generator that are NOT core here (replacement callables / %-templates) *)
 Example default_not_core :
-  transparent_env lt0 [99;101;110;116;101;114]%N = false                       (* center: '\n%s\n' *)
-  /\ symbol_repl lt0 [105;116;101;109]%N = None                                 (* \item: callable *)
-  /\ transparent_macro lt0 [102;114;97;99]%N = false                           (* \frac: '%s/%s' *)
+  transparent_macro lt0 [102;114;97;99]%N = false                           (* \frac: '%s/%s' *)
   /\ transparent_macro lt0 [115;113;114;116]%N = false                         (* \sqrt *)
   /\ symbol_repl lt0 [39]%N = None.                                             (* \' : accent callable *)
 Proof. vm_compute. repeat split; reflexivity. Qed.
@@ -183,11 +195,12 @@ Definition ex_items : list core :=
    KText [100]%N; KSpecials [160%N]; KSpecials [8211%N]; KText [32]%N;
    KComment [32;99]%N [10;32]%N; KSymbol [] [32%N]; KText [121]%N; KPar;
    KMath false [92;40]%N [92;41]%N ex_src [KText [32;113]%N; KSymbol [945%N] [32%N]; KText [114;32]%N];
-   KEnvBody [KText [32]%N; KMath true [92;91]%N [92;93]%N ex_src [KText [117;10;118]%N]]]%N.
-Definition ex_embed := embed_items [116;101;120;116;98;102]%N [105;116;101;109;105;122;101]%N ex_sym ex_spc (fun _ => (0, 5)).
+   KEnvBody [KText [32]%N; KMath true [92;91]%N [92;93]%N ex_src [KText [117;10;118]%N]];
+   KEnvWrap [10%N] [10%N] [KText [119]%N]]%N.
+Definition ex_embed := embed_items [116;101;120;116;98;102]%N [105;116;101;109;105;122;101]%N (fun _ _ => [99;101;110;116;101;114]%N) ex_sym ex_spc (fun _ => (0, 5)).
 
 Example ex_items_ok :
-  cores_ok ex_src lt0 [116;101;120;116;98;102]%N [105;116;101;109;105;122;101]%N ex_sym ex_spc (fun _ => (0, 5)) ex_items.
+  cores_ok ex_src lt0 [116;101;120;116;98;102]%N [105;116;101;109;105;122;101]%N (fun _ _ => [99;101;110;116;101;114]%N) ex_sym ex_spc (fun _ => (0, 5)) ex_items.
 Proof. vm_compute. intuition reflexivity. Qed.
 
 Example ex_tree_level : forall o sl st,
@@ -204,29 +217,28 @@ Example ex_tree_level_computed :
      ex_opts MMVerbatim sls_except false true; ex_opts MMRemove sls_alltrue true false;
      ex_opts MMText {| s_bmc := false; s_blc := true; s_ac := true; s_ineq := IMacros |} true true] = true
   /\ render (ex_opts MMText sls_macros false false) sls_macros ex_items
-     = [97;32;98;945;99;945;100;160;8211;32;10;32;121;10;10;113;945;32;114;32;10;32;32;32;32;117;10;32;32;32;32;118;10]%N
+     = [97;32;98;945;99;945;100;160;8211;32;10;32;121;10;10;113;945;32;114;32;10;32;32;32;32;117;10;32;32;32;32;118;10;10;119;10]%N
   /\ render (ex_opts MMText sls_bos false false) sls_bos ex_items
-     = [97;32;98;945;32;32;99;945;100;160;8211;10;32;32;121;10;10;113;945;32;114;10;32;32;32;32;117;10;32;32;32;32;118;10]%N
+     = [97;32;98;945;32;32;99;945;100;160;8211;10;32;32;121;10;10;113;945;32;114;10;32;32;32;32;117;10;32;32;32;32;118;10;10;119;10]%N
   /\ render (ex_opts MMWithDelims sls_alltrue true true) sls_alltrue ex_items
-     = [97;32;98;945;99;945;100;160;8211;32;37;32;99;10;121;10;10;92;40;113;945;114;92;41;32;92;91;10;117;10;118;10;92;93]%N.
+     = [97;32;98;945;99;945;100;160;8211;32;37;32;99;10;121;10;10;92;40;113;945;114;92;41;32;92;91;10;117;10;118;10;92;93;10;119;10]%N.
 Proof. vm_compute. repeat split; reflexivity. Qed.
 
 (** * Example 2: a document parsed by the parser model, end to end *)
 Definition doc : str :=
-  [97;32;92;116;101;120;116;98;102;32;123;98;92;97;108;112;104;97;32;32;99;125;126;120;32;37;32;99;109;10;32;92;122;
-   122;117;110;107;110;111;119;110;32;121;10;10;122;32;92;40;113;32;92;98;101;116;97;92;41;32;92;98;101;103;105;110;
-   123;105;116;101;109;105;122;101;125;116;92;101;110;100;123;105;116;101;109;105;122;101;125;123;92;91;32;117;92;
-   108;100;111;116;115;10;32;118;32;92;93;125]%N.
-(* a \textbf {b\alpha  c}~x % cm<nl> \zzunknown y<nl><nl>z \(q \beta\) \begin{itemize}t\end{itemize}{\[ u\ldots<nl> v \]} *)
+  [97;32;92;116;101;120;116;98;102;32;123;98;92;97;108;112;104;97;32;32;99;125;126;120;32;37;32;99;109;10;32;92;122;122;117;110;107;110;111;119;110;32;121;10;10;122;32;92;40;113;32;92;98;101;116;97;92;41;32;92;98;101;103;105;110;123;105;116;101;109;105;122;101;125;92;105;116;101;109;32;116;92;101;110;100;123;105;116;101;109;105;122;101;125;123;92;91;32;117;92;108;100;111;116;115;10;32;118;32;92;93;125;92;98;101;103;105;110;123;99;101;110;116;101;114;125;119;92;101;110;100;123;99;101;110;116;101;114;125]%N.
+(* a \textbf {b\alpha  c}~x % cm<nl> \zzunknown y<nl><nl>z \(q \beta\) \begin{itemize}\item t\end{itemize}{\[ u\ldots<nl> v \]}
+   \begin{center}w\end{center}   (the last on the same line) *)
 Definition doc_core : list core :=
   [KText [97;32]%N;
    KTransparent [KText [98]%N; KSymbol [945%N] [32;32]%N; KText [99]%N];
    KSpecials [160%N]; KText [120;32]%N; KComment [32;99;109]%N [10;32]%N; KSymbol [] [32%N]; KText [121]%N; KPar;
    KText [122;32]%N;
    KMath false [92;40]%N [92;41]%N [92;40;113;32;92;98;101;116;97;92;41]%N [KText [113;32]%N; KSymbol [946%N] []];
-   KText [32]%N; KEnvBody [KText [116]%N];
+   KText [32]%N; KEnvBody [KSymbol item_text [32%N]; KText [116]%N];
    KGroup [KMath true [92;91]%N [92;93]%N [92;91;32;117;92;108;100;111;116;115;10;32;118;32;92;93]%N
-             [KText [32;117]%N; KSymbol [8230%N] [10;32]%N; KText [118;32]%N]]].
+             [KText [32;117]%N; KSymbol [8230%N] [10;32]%N; KText [118;32]%N]];
+   KEnvWrap [10%N] [10%N] [KText [119]%N]].
 
 Definition parsed_items (r : res out) : option (list (option node)) :=
   match r with Ok (ONode (Some (NList _ _ l))) _ => Some l | _ => None end.
